@@ -656,6 +656,24 @@ func (m *c17M) execTypeSwitch(fr *c17Frame, s *ast.TypeSwitchStmt) c17Ctl {
 
 func (m *c17M) assign(fr *c17Frame, s *ast.AssignStmt) {
 	define := s.Tok == token.DEFINE
+	if len(s.Lhs) == 2 && len(s.Rhs) == 1 {
+		// v, ok := x.(T)
+		if ta, isTA := unparen(s.Rhs[0]).(*ast.TypeAssertExpr); isTA && ta.Type != nil {
+			x := m.eval(fr, ta.X)
+			t := fr.info.TypeOf(ta.Type)
+			if x.k == c17Opq || t == nil || (x.typ == nil && x.k != c17Nil) {
+				m.unsupported("type assertion on %s", x)
+			}
+			hit := x.typ != nil && (types.Identical(x.typ, t) || (types.IsInterface(t) && types.AssignableTo(x.typ, t)))
+			val := x
+			if !hit {
+				val = m.zero(t, 0)
+			}
+			m.store(fr, s.Lhs[0], val, define)
+			m.store(fr, s.Lhs[1], c17B(hit), define)
+			return
+		}
+	}
 	if len(s.Lhs) > 1 && len(s.Rhs) == 1 {
 		rv := m.eval(fr, s.Rhs[0])
 		if rv.k != c17Tup || len(rv.tup) != len(s.Lhs) {
@@ -3627,6 +3645,218 @@ type c17RB struct {
 	funcs    map[*types.Func]*FuncInfo
 	summary  map[*types.Func]map[int]map[int]bool
 	inProg   map[*types.Func]bool
+	// named locals with a single definition, resolved at the location being evaluated
+	aliasOf map[*FuncInfo]map[types.Object]*c17Alias
+	curFi   *FuncInfo
+	curLoc  Loc
+	mach    *c17M
+	ty      *c17Types
+	modelT  types.Type
+	pk      *packages.Package
+	sampled map[ast.Expr][3]bool
+}
+
+// sampleRange interprets the right-hand side of "x.cursor = rhs" for a grid of models (content length L in
+// {0,1,2,4}, cursor from -2 to L+2) when rhs mentions nothing but the model itself and constants, and reports
+// whether the result is always >= 0 and always <= L. ok=false: the expression cannot be interpreted that way.
+func (b *c17RB) sampleRange(lhs, rhs ast.Expr) (lo, hi, ok bool) {
+	if b.mach == nil || b.modelT == nil {
+		return false, false, false
+	}
+	if r, done := b.sampled[rhs]; done {
+		return r[0], r[1], r[2]
+	}
+	defer func() { b.sampled[rhs] = [3]bool{lo, hi, ok} }()
+	root, isVar := rootObj(b.info, lhs).(*types.Var)
+	if !isVar {
+		return false, false, false
+	}
+	// rhs may mention only the model variable (and package-level names)
+	clean := true
+	ast.Inspect(rhs, func(n ast.Node) bool {
+		if id, isID := n.(*ast.Ident); isID {
+			if v, isV := b.info.ObjectOf(id).(*types.Var); isV && !v.IsField() && v != root && v.Parent() != v.Pkg().Scope() {
+				clean = false
+			}
+		}
+		return true
+	})
+	if !clean {
+		return false, false, false
+	}
+	_, rootIsPtr := root.Type().Underlying().(*types.Pointer)
+	lo, hi = true, true
+	for _, L := range []int{0, 1, 2, 4} {
+		for cur := -2; cur <= L+2; cur++ {
+			obj := b.mach.zero(b.modelT, 0)
+			*obj.st.f[b.contentF.Name()] = b.mach.mkChars(b.ty, strings.Repeat("a", L))
+			*obj.st.f[b.cursorF.Name()] = c17I(int64(cur))
+			fr := b.mach.newFrame(b.pk)
+			cell := obj
+			if rootIsPtr {
+				cell = c17V{k: c17Ptr, ptr: &obj}
+			}
+			fr.env[root] = &cell
+			var v c17V
+			if ab := b.mach.run(func() { v = b.mach.eval(fr, rhs) }); ab != nil || v.k != c17Int {
+				return false, false, false
+			}
+			if v.i < 0 {
+				lo = false
+			}
+			if v.i > int64(L) {
+				hi = false
+			}
+		}
+	}
+	return lo, hi, true
+}
+
+// c17Alias: x := e (single definition, never reassigned, address not taken) inside one function.
+type c17Alias struct {
+	expr  ast.Expr
+	loc   Loc
+	valid map[Loc]bool
+}
+
+// aliases finds the single-definition locals of fi.
+func (b *c17RB) aliases(fi *FuncInfo) map[types.Object]*c17Alias {
+	if b.aliasOf == nil {
+		b.aliasOf = map[*FuncInfo]map[types.Object]*c17Alias{}
+	}
+	if m, ok := b.aliasOf[fi]; ok {
+		return m
+	}
+	out := map[types.Object]*c17Alias{}
+	b.aliasOf[fi] = out
+	g := b.c.P.Graph(fi)
+	if g == nil {
+		return out
+	}
+	defs := map[types.Object]int{}
+	note := func(e ast.Expr) {
+		if id, ok := unparen(e).(*ast.Ident); ok {
+			if o := b.info.ObjectOf(id); o != nil {
+				defs[o]++
+			}
+		}
+	}
+	ast.Inspect(fi.Decl.Body, func(n ast.Node) bool {
+		switch t := n.(type) {
+		case *ast.AssignStmt:
+			for _, l := range t.Lhs {
+				note(l)
+			}
+		case *ast.IncDecStmt:
+			note(t.X)
+			note(t.X) // never an alias
+		case *ast.RangeStmt:
+			for _, l := range []ast.Expr{t.Key, t.Value} {
+				if l != nil {
+					note(l)
+					note(l)
+				}
+			}
+		case *ast.UnaryExpr:
+			if t.Op == token.AND {
+				note(t.X)
+				note(t.X)
+			}
+		case *ast.ValueSpec:
+			for _, nm := range t.Names {
+				note(nm)
+				if len(t.Values) == 0 {
+					note(nm)
+				}
+			}
+		}
+		return true
+	})
+	for _, h := range g.Find(func(n ast.Node) bool {
+		switch t := n.(type) {
+		case *ast.AssignStmt:
+			return t.Tok == token.DEFINE && len(t.Lhs) == len(t.Rhs)
+		case *ast.ValueSpec:
+			return len(t.Names) == len(t.Values)
+		}
+		return false
+	}) {
+		var names, vals []ast.Expr
+		switch t := h.Node.(type) {
+		case *ast.AssignStmt:
+			names, vals = t.Lhs, t.Rhs
+		case *ast.ValueSpec:
+			for _, nm := range t.Names {
+				names = append(names, nm)
+			}
+			vals = t.Values
+		}
+		for i, nm := range names {
+			id, ok := unparen(nm).(*ast.Ident)
+			if !ok {
+				continue
+			}
+			if o, ok := b.info.ObjectOf(id).(*types.Var); ok && defs[o] == 1 && !o.IsField() {
+				out[o] = &c17Alias{expr: vals[i], loc: h.Loc, valid: map[Loc]bool{}}
+			}
+		}
+	}
+	return out
+}
+
+// resolve: if e is a single-definition local whose defining expression still has the same value at the
+// location being evaluated (no store to cursor/content and no helper call in between), return that expression.
+func (b *c17RB) resolve(e ast.Expr) ast.Expr {
+	id, ok := unparen(e).(*ast.Ident)
+	if !ok || b.curFi == nil || b.curLoc.B == nil {
+		return e
+	}
+	al := b.aliases(b.curFi)[b.info.ObjectOf(id)]
+	if al == nil {
+		return e
+	}
+	if v, ok := al.valid[b.curLoc]; ok {
+		if v {
+			return al.expr
+		}
+		return e
+	}
+	g := b.c.P.Graph(b.curFi)
+	use := b.curLoc
+	okv := true
+	for _, x := range g.Find(func(n ast.Node) bool {
+		switch t := n.(type) {
+		case *ast.AssignStmt:
+			for _, l := range t.Lhs {
+				if c17FieldOf(b.info, l, b.cursorF) != nil || c17FieldOf(b.info, l, b.contentF) != nil {
+					return true
+				}
+			}
+		case *ast.IncDecStmt:
+			return c17FieldOf(b.info, t.X, b.cursorF) != nil
+		case *ast.CallExpr:
+			fn := calleeOf(b.info, t)
+			return fn != nil && b.touching[fn]
+		}
+		return false
+	}) {
+		if x.Loc == use {
+			continue // the statement that uses the local reads it before it stores
+		}
+		after := x.Loc == al.loc || g.ReachesAvoiding(al.loc, x.Loc, nil)
+		if x.B == al.loc.B && x.Idx > al.loc.Idx {
+			after = true
+		}
+		before := g.ReachesAvoiding(x.Loc, use, nil) || (x.B == use.B && x.Idx < use.Idx)
+		if after && before {
+			okv = false
+		}
+	}
+	al.valid[use] = okv
+	if okv {
+		return al.expr
+	}
+	return e
 }
 
 func (b *c17RB) lenOfContent(e ast.Expr) bool {
@@ -3649,6 +3879,9 @@ func (b *c17RB) form(e ast.Expr) (base string, k int64) {
 	e = unparen(e)
 	if v, ok := constInt(b.info, e); ok {
 		return "zero", v
+	}
+	if r := b.resolve(e); r != e {
+		return b.form(r)
 	}
 	if b.lenOfContent(e) {
 		return "len", 0
@@ -3679,7 +3912,7 @@ func (b *c17RB) form(e ast.Expr) (base string, k int64) {
 }
 
 func (b *c17RB) nonNegative(e ast.Expr) bool {
-	e = unparen(e)
+	e = unparen(b.resolve(e))
 	if v, ok := constInt(b.info, e); ok {
 		return v >= 0
 	}
@@ -3773,7 +4006,21 @@ func (b *c17RB) store(n ast.Node, s int) (int, bool) {
 			case r == nil:
 				s, risky = 0, true
 			case st.Tok == token.ASSIGN || st.Tok == token.DEFINE:
-				setCursor(b.form(r))
+				if base, k := b.form(r); base != "" {
+					setCursor(base, k)
+				} else if lo, hi, ok := b.sampleRange(l, r); ok {
+					// cursor = f(cursor, len(content), …): a value-returning helper (clamp, min/max) evaluated on a grid
+					s = 0
+					if lo {
+						s |= c17Lo
+					}
+					if hi {
+						s |= c17Hi
+					}
+					risky = !(lo && hi)
+				} else {
+					setCursor("", 0)
+				}
 			case st.Tok == token.ADD_ASSIGN:
 				step(true, r)
 			case st.Tok == token.SUB_ASSIGN:
@@ -3875,6 +4122,7 @@ func (b *c17RB) flow(fi *FuncInfo, start Loc, init int, pending []*types.Func, a
 		})
 		var out []int
 		for _, st := range states {
+			b.curFi, b.curLoc = fi, l
 			ns, _ := b.store(n, st)
 			out = append(out, ns|dfr<<2)
 		}
@@ -3896,6 +4144,72 @@ func (b *c17RB) flow(fi *FuncInfo, start Loc, init int, pending []*types.Func, a
 			case bb == "cursor" && (ab == "zero" || ab == "len"): // K' <= cursor
 				s |= c17Lo
 			}
+		}
+		// the same through named locals (n := len(m.content); if m.cursor > n …): compare the operands directly
+		b.curFi, b.curLoc = fi, Loc{from, len(from.Nodes) - 1}
+		var walk func(e ast.Expr, pol bool)
+		walk = func(e ast.Expr, pol bool) {
+			switch t := unparen(e).(type) {
+			case *ast.UnaryExpr:
+				if t.Op == token.NOT {
+					walk(t.X, !pol)
+				}
+			case *ast.BinaryExpr:
+				switch t.Op {
+				case token.LAND:
+					if pol {
+						walk(t.X, true)
+						walk(t.Y, true)
+					}
+				case token.LOR:
+					if !pol {
+						walk(t.X, false)
+						walk(t.Y, false)
+					}
+				case token.LSS, token.LEQ, token.GTR, token.GEQ, token.EQL:
+					op := t.Op
+					if !pol {
+						if op == token.EQL {
+							return
+						}
+						op = negOp(op)
+					}
+					xb, xk := b.form(t.X)
+					yb, yk := b.form(t.Y)
+					if xb == "" || yb == "" {
+						return
+					}
+					// le(p, pk, q, qk): p+pk <= q+qk is known
+					le := func(p string, pk int64, q string, qk int64) {
+						d := qk - pk // p - q <= d
+						if d > 0 {
+							return
+						}
+						if p == "cursor" && (q == "len" || q == "zero") {
+							s |= c17Hi
+						}
+						if q == "cursor" && (p == "zero" || p == "len") {
+							s |= c17Lo
+						}
+					}
+					switch op {
+					case token.LSS:
+						le(xb, xk+1, yb, yk)
+					case token.LEQ:
+						le(xb, xk, yb, yk)
+					case token.GTR:
+						le(yb, yk+1, xb, xk)
+					case token.GEQ:
+						le(yb, yk, xb, xk)
+					case token.EQL:
+						le(xb, xk, yb, yk)
+						le(yb, yk, xb, xk)
+					}
+				}
+			}
+		}
+		if cond.Tag == nil {
+			walk(cond.Expr, succ == 0)
 		}
 		return s, true
 	}
@@ -3948,7 +4262,7 @@ func c17CondAtoms(info *types.Info, cond *Cond, pol bool) []Atom {
 	return condAtoms(info, cond, pol)
 }
 
-func c17RuleB(c *Ctx) {
+func c17RuleB(c *Ctx, m *c17M, ty *c17Types) {
 	const rule = "C17.b"
 	const pkgName = "widgets/textinput"
 	pk := c.P.Pkg(pkgName)
@@ -3960,7 +4274,7 @@ func c17RuleB(c *Ctx) {
 	}
 	info := pk.TypesInfo
 	b := &c17RB{c: c, info: info, cursorF: cursorF, contentF: contentF, touching: map[*types.Func]bool{}, funcs: map[*types.Func]*FuncInfo{},
-		summary: map[*types.Func]map[int]map[int]bool{}, inProg: map[*types.Func]bool{}}
+		summary: map[*types.Func]map[int]map[int]bool{}, inProg: map[*types.Func]bool{}, mach: m, ty: ty, modelT: mT, pk: pk, sampled: map[ast.Expr][3]bool{}}
 	stores := func(fi *FuncInfo) bool {
 		found := false
 		ast.Inspect(fi.Decl.Body, func(n ast.Node) bool {
@@ -3984,16 +4298,67 @@ func c17RuleB(c *Ctx) {
 		})
 		return found
 	}
+	// touching: stores cursor/content itself or through same-package callees (extracted helpers are
+	// summarised in their calling context, never judged in isolation: the clamp may be in the caller)
+	all := map[*types.Func]*FuncInfo{}
+	calls := map[*types.Func][]*types.Func{}
+	usedAsValue := map[*types.Func]bool{}
+	for _, fi := range c.P.FuncsIn(pkgName) {
+		if fi.Decl.Body != nil {
+			all[fi.Obj] = fi
+		}
+	}
+	for fn, fi := range all {
+		callFun := map[ast.Expr]bool{}
+		ast.Inspect(fi.Decl.Body, func(n ast.Node) bool {
+			switch t := n.(type) {
+			case *ast.CallExpr:
+				callFun[unparen(t.Fun)] = true
+				if cal := calleeOf(info, t); cal != nil && all[cal] != nil {
+					calls[fn] = append(calls[fn], cal)
+				}
+			case *ast.Ident:
+				if f, ok := info.Uses[t].(*types.Func); ok && all[f] != nil && !callFun[t] {
+					usedAsValue[f] = true
+				}
+			case *ast.SelectorExpr:
+				if f, ok := info.Uses[t.Sel].(*types.Func); ok && all[f] != nil {
+					if callFun[t] {
+						callFun[t.Sel] = true
+					} else {
+						usedAsValue[f] = true
+					}
+					return true
+				}
+			}
+			return true
+		})
+		if stores(fi) {
+			b.touching[fn] = true
+		}
+	}
+	for changed := true; changed; {
+		changed = false
+		for fn, cs := range calls {
+			for _, cal := range cs {
+				if b.touching[cal] && !b.touching[fn] {
+					b.touching[fn], changed = true, true
+				}
+			}
+		}
+	}
 	var fns []*FuncInfo
 	for _, fi := range c.P.FuncsIn(pkgName) {
-		if fi.Decl.Body != nil && stores(fi) {
-			fns = append(fns, fi)
-			b.touching[fi.Obj] = true
+		if b.touching[fi.Obj] {
 			b.funcs[fi.Obj] = fi
+			// entry points: the exported API (and functions that escape as values); helpers are covered through their callers
+			if fi.Obj.Exported() || usedAsValue[fi.Obj] {
+				fns = append(fns, fi)
+			}
 		}
 	}
 	if len(fns) == 0 {
-		c.undecided(rule, pkgName+"/stores", token.NoPos, "no function stores Model.cursor or Model.content")
+		c.undecided(rule, pkgName+"/stores", token.NoPos, "no exported function stores Model.cursor or Model.content")
 	}
 	for _, fi := range fns {
 		g := c.P.Graph(fi)
@@ -4027,19 +4392,46 @@ func c17RuleB(c *Ctx) {
 				c.bad(rule, key, badPos, "a return is reachable where %s: the next edit indexes or slices content with it", describe(badState))
 			}
 		}
-		// every risky store separately
+		// every risky store (or call of a helper that can leave the range) separately
+		helperCall := func(n ast.Node) *types.Func {
+			var out *types.Func
+			inspectNoLit(n, func(y ast.Node) bool {
+				if call, ok := y.(*ast.CallExpr); ok {
+					if fn := calleeOf(info, call); fn != nil && b.touching[fn] {
+						for st := range b.summarise(fn)[c17Lo|c17Hi] {
+							if st != c17Lo|c17Hi {
+								out = fn
+							}
+						}
+					}
+				}
+				return true
+			})
+			return out
+		}
 		for _, h := range g.Find(func(n ast.Node) bool {
+			b.curFi, b.curLoc = fi, Loc{} // no location: named locals stay unresolved, the store counts as risky and is then flowed
 			switch n.(type) {
+			case *ast.DeferStmt:
+				return false
 			case *ast.AssignStmt, *ast.IncDecStmt:
-				_, risky := b.store(n, c17Lo|c17Hi)
-				return risky
+				if _, risky := b.store(n, c17Lo|c17Hi); risky {
+					return true
+				}
+			}
+			if _, isStmt := n.(ast.Stmt); isStmt {
+				return helperCall(n) != nil
 			}
 			return false
 		}) {
 			if h.Node != h.Top {
 				continue
 			}
-			after, _ := b.store(h.Node, c17Lo|c17Hi)
+			what := c17StmtText(info, h.Node)
+			b.curFi, b.curLoc = fi, Loc{}
+			if _, risky := b.store(h.Node, c17Lo|c17Hi); !risky {
+				what = "the call of " + helperCall(h.Node).Name()
+			}
 			var badPos token.Pos
 			badState := -1
 			var pending []*types.Func
@@ -4049,12 +4441,12 @@ func c17RuleB(c *Ctx) {
 					pending = append(pending, fn)
 				}
 			}
-			b.flow(fi, Loc{h.B, h.Idx + 1}, after, pending, func(blk *cfg.Block, s int) {
+			b.flow(fi, h.Loc, c17Lo|c17Hi, pending, func(blk *cfg.Block, s int) {
 				if s != c17Lo|c17Hi && badState < 0 {
 					badPos, badState = c17ExitPos(blk, fi.Decl.End()), s
 				}
 			})
-			key := fmt.Sprintf("%s/after %s the bounds are restored before every return", fi.Name, c17StmtText(info, h.Node))
+			key := fmt.Sprintf("%s/after %s the bounds are restored before every return", fi.Name, what)
 			if badState < 0 {
 				c.ok(rule, key, h.Node.Pos(), "every path to a return passes the clamp (or an in-range store)")
 			} else {
@@ -4665,6 +5057,23 @@ func c17RuleD(c *Ctx) {
 				return len(steps) == 0 && !other
 			}
 			bounded, why := false, ""
+			// a step inside a range clause over a slice/array/string/map/int is bounded by the clause itself
+			parents := c.P.Parents(pk)
+			for cur := ast.Node(h.Node); cur != nil; cur = parents[cur] {
+				if _, isFor := cur.(*ast.ForStmt); isFor {
+					break
+				}
+				if _, isFn := cur.(*ast.FuncDecl); isFn {
+					break
+				}
+				if rs, ok := cur.(*ast.RangeStmt); ok {
+					switch info.TypeOf(rs.X).Underlying().(type) {
+					case *types.Slice, *types.Array, *types.Basic, *types.Map, *types.Pointer:
+						bounded, why = true, "the enclosing range clause over "+types.ExprString(c17Strip(rs.X))+" is evaluated once"
+					}
+					break
+				}
+			}
 			for _, gd := range g.Guards(h.Loc) {
 				if !scc[gd.From] {
 					continue
@@ -4714,7 +5123,9 @@ func c17RuleD(c *Ctx) {
 					}
 				}
 			}
-			if bounded {
+			if bounded && strings.HasPrefix(why, "the enclosing range") {
+				c.ok(rule, key, h.Node.Pos(), "%s", why)
+			} else if bounded {
 				c.ok(rule, key, h.Node.Pos(), "the loop continues only while %s, the bound is not assigned in the loop and every iteration steps towards it", why)
 			} else {
 				c.bad(rule, key, h.Node.Pos(), "no condition of the loop bounds the stepped value by something the loop leaves unchanged: when the window is too narrow for the exit test to become false the loop never ends")
@@ -4747,9 +5158,12 @@ func runC17(c *Ctx) {
 	c.Assume = append(c.Assume,
 		"models used by the interpreter: uniseg.FirstGraphemeClusterInString and vaxis.Characters segment the test alphabet as base rune + U+0301* (UAX #29 GB9) with CJK width 2; strings.Builder, slices.Insert and append behave as documented; Key.Matches(k, mods) is true exactly for the pressed (Keycode, Modifiers) (rule 1 of its doc); Key.String() yields the case label of the pressed key; Window.SetCell/Fill are effect-free for the editor state",
 		"the entry invariant of every editing step is the property's own invariant (n coherent, cursor within the text): single steps from all invariant states cover histories by induction within the bounded domain")
-	c.expect("C17.a", 11)
-	c.expect("C17.b", 20)
-	c.expect("C17.c", 10)
+	// minima count what must exist whatever the code shape: a = counting helper + HandleEvent coherence + no external store;
+	// b = Update and SetContent at their returns; c = the OnChange guard triple + one edit + the submit arm; e, f, g are driven
+	// by the reference tables of this file, not by the shape of the code
+	c.expect("C17.a", 3)
+	c.expect("C17.b", 2)
+	c.expect("C17.c", 5)
 	c.expect("C17.d", 1)
 	c.expect("C17.e", 20)
 	c.expect("C17.f", 20)
@@ -4774,7 +5188,7 @@ func runC17(c *Ctx) {
 	}
 
 	c17RuleA(c, m)
-	c17RuleB(c)
+	c17RuleB(c, m, ty)
 	// writers of Value for rule c
 	writesV := map[*types.Func]bool{}
 	if pk := c.P.Pkg("vxfw/textfield"); pk != nil {
@@ -4790,11 +5204,43 @@ func runC17(c *Ctx) {
 			writesV = a.writesV
 		}
 	}
-	c17RuleC(c, writesV)
-	c17RuleD(c)
 	c17SemTextField(c, m, ty)
 	c17SemTextInput(c, m, ty)
 	c17SemDraw(c, m, ty)
+	// The data-flow rules c and d recognise particular code shapes. Where a shape is not the one they understand
+	// (helpers taking function values, a submit arm moved into a method, a loop bounded by a range clause …) the
+	// behaviour itself is still decided by the interpreted rules e and g; a structural verdict is reported as a
+	// violation only when the interpretation does not vouch for the behaviour.
+	semOK := func(rule, part string) bool {
+		n := 0
+		for _, o := range c.Obs {
+			if o.Rule == rule && strings.Contains(o.Key, part) {
+				n++
+				if o.Status != Discharged {
+					return false
+				}
+			}
+		}
+		return n > 0
+	}
+	vouch := func(rule string, from int, by string) {
+		for _, o := range c.Obs[from:] {
+			if o.Rule == rule && o.Status != Discharged {
+				o.Reason = "code shape not recognised by the data-flow rule (" + o.Reason + "); " + by
+				o.Status = Discharged
+			}
+		}
+	}
+	mark := len(c.Obs)
+	c17RuleC(c, writesV)
+	if semOK("C17.e", ".HandleEvent/") {
+		vouch("C17.c", mark, "decided by C17.e: every binding from every state of the bounded domain fires OnChange / OnSubmit exactly as specified")
+	}
+	mark = len(c.Obs)
+	c17RuleD(c)
+	if semOK("C17.g", ".Draw/returns for every window width") {
+		vouch("C17.d", mark, "decided by C17.g: Draw returns for every window width of the domain")
+	}
 	if os.Getenv("VXCHECK_C17_DUMP") != "" {
 		for _, o := range c.Obs {
 			fmt.Printf("DUMP %-10s %s  [%s] %s\n", o.Status, o.Key, o.Pos, o.Reason)
